@@ -1,7 +1,7 @@
 (* glob_driver: runs the extracted model (gmatch_x) and the extracted declarative spec (spec_match).
    modes
      lines                      stdin: "<hex pattern> <hex name>" per line ("-" = empty string)
-                                stdout per line: 3 chars  <model><spec><aligned>
+                                stdout per line: 4 chars  <model><spec><aligned A|-><utf8_valid pattern V|->
      enum AP MINP MAXP AN MAXN SHARD NSHARDS
                                 enumerates patterns over alphabet AP (hex) of length MINP..MAXP (odometer order,
                                 most significant first, global index k; only k mod NSHARDS = SHARD) x names over
@@ -45,6 +45,7 @@ let () =
         Buffer.add_char buf (xc (gmatch_x p n));
         Buffer.add_char buf (mc (spec_match p n));
         Buffer.add_char buf (if pattern_aligned p then 'A' else '-');
+        Buffer.add_char buf (if utf8_valid p then 'V' else '-');
         Buffer.add_char buf '\n';
         if Buffer.length buf > 60000 then flush_buf ()
       | _ -> ()
